@@ -11,6 +11,22 @@ structure FieldSpec where
   name : String
   init : Bool
   pytreeNode : Bool
+  /-- `field(kw_only=True)` -/
+  kwOnly : Bool := true
+  /-- 0 = no default, 1 = `default=`, 2 = `default_factory=` -/
+  dflt : Nat := 0
+  /-- declared in a base dataclass (such fields come first in `dataclasses.fields`) -/
+  inherited : Bool := false
+  deriving DecidableEq, Repr, Inhabited
+
+/-- keyword arguments of the decorator / of `make_dataclass` that `dataclasses.dataclass` interprets -/
+structure DcOpts where
+  /-- 0 = `@dataclass(namespace=…)` on a class statement, 1 = `make_dataclass(name, fields, namespace=…)` -/
+  via : Nat := 0
+  slots : Bool := false
+  frozen : Bool := false
+  kwOnly : Bool := false
+  order : Bool := false
   deriving DecidableEq, Repr, Inhabited
 
 /-- how the decorator is applied -/
@@ -19,9 +35,13 @@ structure DcCall where
   alreadyDecorated : Bool
   nsEmpty : Bool
   isClass : Bool
+  opts : DcOpts := {}
   deriving Repr, Inhabited
 
-/-- the children / metadata field partition computed by the decorator, or the rejection -/
+/-- the children / metadata field partition computed by the decorator, or the rejection.  It is a
+function of the (name, init, pytree_node) triples in `dataclasses.fields` order only: defaults,
+`kw_only`, `slots`, `frozen`, `order`, inheritance and the route (decorator or `make_dataclass`) do not
+enter (C19_partition_options_irrelevant). -/
 def dcPartition (c : DcCall) : Except Err (List String × List String) :=
   -- `field(init=False, pytree_node=True)` is rejected when the field is declared (dataclasses.py:185),
   -- before the decorator runs; the decorator repeats the check for fields declared some other way
